@@ -1346,12 +1346,17 @@ def op_dump_load(w, s):
     from simlab.chain_io import _arm, _account
     fs = SimFS(w.scratch)
     _arm(fs, s.get("faults"))
+    extra = ["user_tag"] if s.get("other_attrs") else None
+    if extra:
+        e.obj.user_tag = np.array([3.5, -1.25])      # a user attribute stored along with the state (documented other_attrs)
     with fs:
-        e.obj.dump(path)     # the library logs and swallows a failing dump
+        e.obj.dump(path, other_attrs=extra) if extra else e.obj.dump(path)     # the library logs and swallows a failing dump
     fired = _account(w, fs)
     w.xdigest.add("dump", [(k, kind, n) for (k, kind, rel, n) in fs.log])
     try:
-        res = TTNS.load(e.obj.basis, path)
+        res = TTNS.load(e.obj.basis, path, other_attrs=extra) if extra else TTNS.load(e.obj.basis, path)
+        if extra and not np.array_equal(np.asarray(res.user_tag), np.array([3.5, -1.25])):
+            raise V({"C14"}, "C14.tree.roundtrip", "user attribute given in other_attrs was not restored", sig="C14.tree.roundtrip:other_attrs")
     except Exception as ex:
         if fired:
             w.stats.probes["load_refused_after_faulty_dump"] += 1
@@ -1706,7 +1711,7 @@ def p_dump_load(w, rnd):
     if not hs or not w.scratch:
         return None
     from simlab.chain_io import _gen_faults
-    return {"op": "dump_load", "a": rnd.choice(hs), "out": w.new_handle(), "faults": _gen_faults(rnd, ["open_w", "write"])}
+    return {"op": "dump_load", "a": rnd.choice(hs), "out": w.new_handle(), "faults": _gen_faults(rnd, ["open_w", "write"]), "other_attrs": rnd.random() < 0.35}
 
 
 @prop("drop")
